@@ -2,6 +2,7 @@ import Driver.Proto
 import Driver.Ops.C03
 import PqModel.Convert
 import PqModel.ConvertChunks
+import PqModel.ConvertEntry
 
 /-! Ops for C12: schema conversion of one row.
     Named node text: `F` leaf | `G(<name>:<rp><node>,...)` group (`G()` is not used), rp = `q` required,
@@ -85,6 +86,22 @@ def handle (toks : List String) : Option String :=
     -- which of the source's sorting columns survive (1/0, comma separated) -> how many are declared
     match parseList? parseNat? flags with
     | some fs => s!"ok {(carrySorting (fun x => x != 0) fs).length}"
+    | none => "bad-op"
+  | ["convert.guards", ss, ts] => some <|
+    -- `ok <EqualNodes(tgt, src)> <SameNodes(tgt, src)> <unique names src> <unique names tgt>` (0/1)
+    match parsePNode ss.toList, parsePNode ts.toList with
+    | some (s, []), some (t, []) =>
+      let b (x : Bool) : String := if x then "1" else "0"
+      s!"ok {b (equalN t s)} {b (sameN t s)} {b (nodupN s)} {b (nodupN t)}"
+    | _, _ => "bad-op"
+  | ["convert.retarget", total, targets] => some <|
+    -- one `Reader.Read` per character of `targets` (the character names the target type) over a
+    -- file of `total` rows: `<type><row>` per call, `eof` past the end
+    match total.toNat? with
+    | some n =>
+      "ok " ++ ";".intercalate ((Rd.run Rd.init n Rd.fresh targets.toList).map fun
+        | some (c, k) => s!"{c}{k}"
+        | none => "eof")
     | none => "bad-op"
   | ["convert.fwd", total, ops] => some <|
     match total.toNat? with
